@@ -110,6 +110,7 @@ theorem lin_val (e : Ex K) : ∀ (ρ : MVal K) (wm : Bool), (lin e ρ wm).val = 
   | sqnorm a iha => intro ρ wm; simp only [lin, eval, iha]
   | quad d a iha => intro ρ wm; simp only [lin, eval, iha]
   | gauss data icov a iha => intro ρ wm; simp only [lin, eval, iha]
+  | const en d v => intro ρ wm; rfl
 end linval
 
 /-! ### the Jacobian is the true derivative -/
@@ -133,6 +134,7 @@ def Valid : Ex ℝ → MVal ℝ → Prop
   | .sqnorm a, ρ => Valid a ρ
   | .quad _ a, ρ => Valid a ρ
   | .gauss _ _ a, ρ => Valid a ρ
+  | .const _ _ _, _ => True
 
 /-- **Jacobian = true derivative.**  For every expression tree `e`, every differentiable curve `γ` in the input
     space (any multi-domain) with velocity `h` at `t = 0`, and every output entry `(k, i)`, the function
@@ -277,6 +279,10 @@ theorem lin_hasDerivAt (e : Ex ℝ) (wm : Bool) :
         congr 1; funext k j; simp only [sci_half]; ring
       · simp only [hi, if_false]; exact hasDerivAt_const _ _
     · simp only [hk, if_false]; exact hasDerivAt_const _ _
+  | const en d v =>
+    intro γ h hγ hv k i
+    simp only [eval, lin]
+    exact hasDerivAt_const _ _
 
 /-! ### the metric is carried through -/
 
